@@ -249,6 +249,27 @@ func (b *Budget) Timeout() time.Duration {
 
 func (b *Budget) Spent() { atomic.AddInt64(&b.left, -1) }
 
+// patience: the first few waits of a process that run out are given a second, much longer period before the event is
+// taken to be missing - on an oversubscribed machine a goroutine that has 100 ms of work (encoding a 16 MB response) has
+// been seen to need more than 3 s. A wait that succeeds in its second period costs nothing; one that does not has cost
+// PatiencePeriod once.
+var patienceLeft int64 = 6
+
+const PatiencePeriod = 15 * time.Second
+
+func (b *Budget) Patience() time.Duration {
+	if atomic.LoadInt64(&b.left) <= 0 {
+		return 0
+	}
+	if atomic.AddInt64(&patienceLeft, -1) < 0 {
+		return 0
+	}
+	return PatiencePeriod
+}
+
+// PatienceBack: the event came during the second period - this was a slow machine, not a missing event
+func (b *Budget) PatienceBack() { atomic.AddInt64(&patienceLeft, 1) }
+
 // Exhausted: so many waits timed out that going on only costs time (the tree is broken and the
 // anomalies seen so far are reported); the remaining cases are skipped.
 func (b *Budget) Exhausted() bool { return atomic.LoadInt64(&b.left) < -100 }
